@@ -221,6 +221,14 @@ func (s *Solver) Assert(t *Term) {
 
 func (s *Solver) Check() SatResult {
 	start := time.Now()
+	// watchdog: z3 does not always honour its own timeout (preprocessing of large bit-vector terms); a query that is
+	// still running well past it gets the solver killed, which ends the instance as inconclusive
+	wd := time.AfterFunc(time.Duration(s.timeoutMs)*time.Millisecond+45*time.Second, func() {
+		if s.cmd != nil && s.cmd.Process != nil {
+			s.cmd.Process.Kill()
+		}
+	})
+	defer wd.Stop()
 	s.send("(check-sat)")
 	if s.log != nil {
 		s.log.Flush()
